@@ -27,7 +27,7 @@ ORDINARY = ["wip", "use.without_os=a", "use.with_=x", "not.with_os", "use.with_o
 OPS = {"eq": operator.eq, "ge": operator.ge, "le": operator.le, "lt": operator.lt}
 
 
-def mk_value(spec):
+def mk_value(spec, state=None, cat=None):
     from behave.tag_matcher import NumberValueObject, BoolValueObject, ValueObject
     kind = spec[0]
     if kind == "str":
@@ -42,12 +42,14 @@ def mk_value(spec):
         v = ValueObject(spec[1])
     else:
         raise ValueError(spec)
+    # lazy values read what is current at the moment they are asked (an environment variable, say): state[cat]
+    state = state if state is not None else {}
     if spec[-1] == "lazy" and kind in ("str",):
-        inner = v
-        return lambda: inner
+        state[cat] = v
+        return lambda: state[cat]
     if spec[-1] == "lazy" and kind in ("num", "bool", "strobj"):
-        inner = v._value
-        v._value = lambda: inner
+        state[cat] = v._value
+        v._value = lambda: state[cat]
     return v
 
 
@@ -56,7 +58,8 @@ def impl_matcher(case):
                                     CompositeTagMatcher)
     import logging
     logging.getLogger("behave.active_tags").disabled = True       # conversion errors are logged; keep the check quiet
-    data = {cat: mk_value(spec) for cat, spec in case["values"].items()}
+    state = {}
+    data = {cat: mk_value(spec, state, cat) for cat, spec in case["values"].items()}
     kind = case["provider"]
     if kind == "dict":
         prov = data
@@ -88,6 +91,10 @@ def impl_matcher(case):
         out["again"] = bool(m.should_exclude_with(case["tags"]))          # cached providers must not change the answer
         out["run"] = bool(m.should_run_with(case["tags"]))
         out["composite"] = bool(CompositeTagMatcher([ActiveTagMatcher({}), m]).should_exclude_with(case["tags"]))
+        if case.get("later"):
+            # what the lazy values read has changed in the meantime; the same matcher is asked again
+            state.update(case["later"])
+            out["later"] = bool(m.should_exclude_with(case["tags"]))
     except Exception as e:      # noqa
         out["EXC"] = "%s: %s" % (type(e).__name__, e)
     return out
@@ -152,6 +159,13 @@ def oracle(case, obs):
         out.append(("tags %s with current values %s (%s provider): exclude=%s, documented logic says %s" % (
             case["tags"], eff_values(case), case["provider"] + (", values overridden from %s" % case["override"] if case.get("override") else ""),
             obs["exclude"], want), sig))
+    if case.get("later"):
+        c2 = dict(case, values={c: ([sp[0], case["later"][c]] + list(sp[2:]) if c in case["later"] else sp) for c, sp in case["values"].items()})
+        want2 = expected(c2)
+        if obs.get("later") != want2:
+            out.append(("tags %s: after the lazily computed current values changed to %s (from %s) the same matcher answers exclude=%s, the documented "
+                        "logic over the current values says %s" % (case["tags"], case["later"], case["values"], obs.get("later"), want2),
+                        "lazy-value-not-current"))
     if obs["again"] != obs["exclude"]:
         out.append(("second query gives a different answer (provider cache)", "provider-cache"))
     if obs["run"] == obs["exclude"]:
@@ -201,6 +215,11 @@ def suites(tier, seed):
         case = {"tags": list(tags), "values": values, "provider": rnd.choice(["dict", "atvp", "composite"])}
         if rnd.random() < 0.25:
             case["override"] = {c: rnd.choice(["a", "b", "10", "zz"]) for c in rnd.sample(CATS + ["nosuch"], rnd.randint(1, 2))}
+        lazy = [c for c, sp in values.items() if sp[-1] == "lazy"]
+        if lazy and case["provider"] != "composite" and "override" not in case:
+            # (the composite provider caches on purpose; values overridden from userdata are plain strings)
+            case["later"] = {c: {"str": lambda v: "a", "strobj": lambda v: "b", "bool": lambda v: not v, "num": lambda v: v - 1}[values[c][0]](values[c][1])
+                             for c in lazy}
         if rnd.random() < 0.3:
             case["prequery"] = [[rnd.choice(["os", "browser", "browser.ver", "nosuch", "x"]), rnd.choice([None, "", 0, "zz"])]
                                 for _ in range(rnd.randint(1, 3))]
